@@ -6,6 +6,7 @@ import (
 	"crypto/sha256"
 	"encoding/hex"
 	"fmt"
+	"io"
 	"os"
 	"sort"
 	"strconv"
@@ -25,9 +26,12 @@ type C03Case struct {
 	Name    string   `json:"name_class"`
 	Setting Setting  `json:"setting"`
 	Mutate  bool     `json:"mutate,omitempty"`
+	// Prior: a packaging call of the same configuration that FAILS (signing callback fails / destination
+	// writer fails) is made first in the same process
+	Prior string `json:"prior,omitempty"`
 }
 
-var c03Items = []string{"f5000", "f0", "dir", "symlink", "f1", "f1023", "f1024", "config", "ghost", "big", "mut"}
+var c03Items = []string{"f5000", "f0", "dir", "symlink", "f1", "f1023", "f1024", "config", "ghost", "big", "mut", "disklink"}
 
 var c03Names = map[string]string{"plain": "data.bin", "space": "with space.bin", "percent": "100%s_done%d.bin", "hash": "#hash.bin", "backslash": `back\slash.bin`, "unicode": "ünï.bin"}
 var c03NameOrder = []string{"plain", "space", "percent", "hash", "backslash", "unicode"}
@@ -53,6 +57,8 @@ func c03Entry(item string, i int, nameClass string) model.Entry {
 		return model.Entry{Src: "share/big.bin", Dst: base + name}
 	case "mut":
 		return model.Entry{Src: "share/mut.bin", Dst: base + name}
+	case "disklink":
+		return model.Entry{Src: "link", Dst: base + name} // an on-disk symlink as source: shipped as symlink
 	case "dir":
 		return model.Entry{Dst: base + name, Type: "dir"}
 	case "symlink":
@@ -118,6 +124,14 @@ func init() {
 						if !yield(C03Case{Shape: []string{a, b}, Setting: s}) {
 							return
 						}
+					}
+				}
+			}
+			// a failed packaging call first (signer fails / destination fails), then the judged build
+			for _, prior := range []string{"signer-fails", "write-fails"} {
+				for _, shape := range [][]string{{"f5000"}, {"f5000", "config"}, {"big", "f1"}, nil} {
+					if !yield(C03Case{Shape: shape, Setting: Setting{Name: "default"}, Prior: prior}) {
+						return
 					}
 				}
 			}
@@ -187,7 +201,7 @@ func checkC03(env *engine.Env, ci any) engine.Outcome {
 	for _, f := range formats {
 		viol := func(sig, format string, a ...any) {
 			out.Violations = append(out.Violations, engine.Violation{Sig: sig,
-				Detail: fmt.Sprintf("format=%s setting=%s mutate=%v list=%s\n", f, c.Setting.Name, c.Mutate, descList(list)) + fmt.Sprintf(format, a...)})
+				Detail: fmt.Sprintf("format=%s setting=%s mutate=%v prior-failed-call=%q list=%s\n", f, c.Setting.Name, c.Mutate, c.Prior, descList(list)) + fmt.Sprintf(format, a...)})
 		}
 		if c.Mutate {
 			restore()
@@ -195,6 +209,16 @@ func checkC03(env *engine.Env, ci any) engine.Outcome {
 			out.Transitions++
 			os.WriteFile(mut, fixture.Noise(len(mutNode.Data), 99), 0o644)
 			os.Chtimes(mut, mutNode.MTime, mutNode.MTime)
+		}
+		if c.Prior != "" {
+			out.Transitions++
+			switch c.Prior {
+			case "signer-fails":
+				c06Build(text, f, io.Discard, func(r io.Reader) ([]byte, error) { return nil, errInjected })
+			case "write-fails":
+				c06Build(text, f, &faultWriter{k: 1, variant: "sticky"}, nil)
+				c06Build(text, f, &faultWriter{k: 0, variant: "sticky"}, nil)
+			}
 		}
 		out.Transitions++
 		data, err := buildYAML(text, f)
@@ -220,7 +244,7 @@ func checkC03(env *engine.Env, ci any) engine.Outcome {
 		}
 		keys = append(keys, f+":"+k)
 	}
-	out.Key = strings.Join(keys, "|")
+	out.Key = c.Prior + "|" + strings.Join(keys, "|")
 	return out
 }
 
